@@ -4,7 +4,7 @@ from common import jhash, first_diff
 from pkgrun import *
 
 PROF = profile(tokens=True, straddle_ranges=0.15, no_textbox_in_link=True, math_markup=False, alt_markup=False, p_comment_marker=0.2, p_comments=0.92,
-               p_textbox=0.0, p_vmerge=0.0, p_table=0.2, p_style=0.45, p_list=0.35, p_text=0.55, inlines=(1, 5), p_sdt_cell=0.0, p_block_misc=0.1)
+               p_textbox=0.0, p_vmerge=0.3, p_table=0.3, p_style=0.45, p_list=0.35, p_text=0.55, inlines=(1, 5), p_sdt_cell=0.0, p_block_misc=0.1)
 RULE = ('documents with 0-8 comment ranges starting and ending at arbitrary run boundaries, spanning paragraphs / cells / tables, nested '
         'and overlapping, in heading and list paragraphs, inside hyperlinks (rounded outwards to the link, which is one run), with count mismatches and missing comments part; both html settings; checker: '
         'reference text holds exactly the text tokens between the two markers, is a contiguous slice of the flattened body_runs, author / '
@@ -13,49 +13,56 @@ RULE = ('documents with 0-8 comment ranges starting and ending at arbitrary run 
 
 
 def expected(root, croot):
-    """well-formed ranges of the main part: id -> tokens between the markers; and the comment entries"""
-    order = []          # ('s'|'e', id) | ('t', token)
-    def visit(x, in_link):
+    """well-formed ranges of the main part: id -> tokens between the markers; the ids of ranges that touch a vertically continued cell
+    (its own content is replaced by the copy of the cell above when duplicate_merged_cells is on); and the comment entries"""
+    order = []          # ('s'|'e', id, hidden) | ('t', token, hidden)
+    def continued(tc):
+        pr = src.child(tc, 'w:tcPr'); vm = src.child(pr, 'w:vMerge') if pr is not None else None
+        return vm is not None and src.wval(vm) in (None, 'continue')
+    def visit(x, in_link, hid):
         t = src.ptag(x)
+        if t == 'w:tc' and continued(x): hid = True
         if t == 'w:hyperlink' and not in_link:
             # a hyperlink is one run string: a range that starts / ends inside it starts before / ends after that run
             inner = [y for y in x.iter() if y is not x]
             for y in inner:
-                if src.ptag(y) == 'w:commentRangeStart': order.append(('s', src.wval(y, 'id')))
+                if src.ptag(y) == 'w:commentRangeStart': order.append(('s', src.wval(y, 'id'), hid))
             for y in inner:
                 if src.ptag(y) in ('w:t', 'm:t'):
-                    for tok in src.TOKEN.findall(y.text or ''): order.append(('t', tok))
+                    for tok in src.TOKEN.findall(y.text or ''): order.append(('t', tok, hid))
             for y in inner:
-                if src.ptag(y) == 'w:commentRangeEnd': order.append(('e', src.wval(y, 'id')))
+                if src.ptag(y) == 'w:commentRangeEnd': order.append(('e', src.wval(y, 'id'), hid))
             return
-        if t == 'w:commentRangeStart': order.append(('s', src.wval(x, 'id')))
-        elif t == 'w:commentRangeEnd': order.append(('e', src.wval(x, 'id')))
+        if t == 'w:commentRangeStart': order.append(('s', src.wval(x, 'id'), hid))
+        elif t == 'w:commentRangeEnd': order.append(('e', src.wval(x, 'id'), hid))
         elif t in ('w:t', 'm:t'):
-            for tok in src.TOKEN.findall(x.text or ''): order.append(('t', tok))
+            for tok in src.TOKEN.findall(x.text or ''): order.append(('t', tok, hid))
+        elif t == 'w:tc' and hid: order.append(('c', None, True))       # the cell itself is replaced, even when it holds no text
         for c in x:
-            if isinstance(c.tag, str): visit(c, in_link)
-    visit(root, False)
+            if isinstance(c.tag, str): visit(c, in_link, hid)
+    visit(root, False, False)
     ids = {}
-    for k, (kind, v) in enumerate(order):
+    for k, (kind, v, _h) in enumerate(order):
         if kind in 'se': ids.setdefault(v, []).append((kind, k))
-    ranges = {}; wellformed = True
+    ranges = {}; wellformed = True; touched = set()
     for i, ev in ids.items():
         if [k for k, _ in ev] == ['s', 'e']:
-            ranges[i] = [v for kind, v in order[ev[0][1]:ev[1][1]] if kind == 't']
+            ranges[i] = [v for kind, v, _h in order[ev[0][1]:ev[1][1]] if kind == 't']
+            if any(h for _k, _v, h in order[ev[0][1]:ev[1][1] + 1]): touched.add(i)
         else: wellformed = False
     entries = []
     if croot is not None:
         for c in croot:
             if not isinstance(c.tag, str): continue
             entries.append({'id': src.wval(c, 'id'), 'author': src.wval(c, 'author'), 'date': src.wval(c, 'date') or ''})
-    return ranges, wellformed, len(ids), entries
+    return ranges, wellformed, len(ids), entries, touched
 
 
 def one(ctx, data, meta=None, opts=((False, False), (True, False), (True, True))):
     ctx.evaluations += 1; good = True
     parts = src.parts_of(data); cps = dict((t, p) for t, p in src.content_parts(data))
     root = parts.get(cps.get('officeDocument')); croot = parts.get(cps.get('comments')) if 'comments' in cps else None
-    ranges, wellformed, nids, entries = expected(root, croot)
+    ranges, wellformed, nids, entries, touched = expected(root, croot)
     for html, dup in opts:
         i, m = pk.both(ctx.drv, data, html, dup, want=['runs', 'comments'])
         case = case_payload(data, html=html, dup=dup)
@@ -75,6 +82,7 @@ def one(ctx, data, meta=None, opts=((False, False), (True, False), (True, True))
             c = {**case, 'comment_index': k, 'comment_id': e['id']}
             if tup[1] != e['author'] or tup[2] != e['date']:
                 ctx.fail('author / date of a comment differ from the comments part (or the order is not that of the part)', c, tup); good = False; continue
+            if dup and e['id'] in touched: ctx.count('range touching a vertically continued cell (copy replaces its content): text not compared'); continue
             toks = src.TOKEN.findall(tup[0])
             if dup: toks = list(dict.fromkeys(toks))       # merged-cell copies repeat text inside a range
             def subseq(a, b):
